@@ -4,7 +4,7 @@ func init() {
 	t := propTechnique
 	t["C01"] = "SSA ordering (view pinned before seqnum) + enum-switch exhaustiveness survey (AST+types)"
 	t["C03"] = "SSA lock-region dataflow, DB.mu lockset with requires-held summaries, value provenance, comparison-guard analysis"
-	t["C08"] = "enum-switch exhaustiveness survey (AST+types) + routing table check"
+	t["C08"] = "enum-switch exhaustiveness survey (AST+types) + routing table check + sort-stability discipline on []keyspan.Key call sites (SSA, resolved callees)"
 	t["C17"] = "SSA guard dataflow with derived/iteration-local facts, enum-switch exhaustiveness"
 	t["C21"] = "SSA ordering / guard / lock-region dataflow, obligation-as-fact"
 	t["C23"] = "codec agreement on AST+types (tags, fields) + SSA obligation-as-fact (section terminator) + untrusted-size allocation check"
